@@ -533,7 +533,7 @@ def run(ctx):
     # 7. stricter sub-model: SPEC-DRIFT only
     if not ctx.violations:
         for i in sorted(drifting)[:3]:
-            ctx.spec_drift("FrameHdr", "FEC decoding of a packet that carries LBRR data for the mid channel returned the concealment samples: request %s" %
+            ctx.spec_drift("FrameHdr", "FEC decoding of a packet that carries LBRR data for the mid channel returned the (non-degenerate) concealment samples: request %s" %
                            json.dumps(by_id.get(i, {}))[:300])
     ctx.notes["observed"] = OBS
 
